@@ -122,6 +122,14 @@ def run_drive(binary, script_path, out_path, timeout=120, journal=None, extra=No
         try:
             p = subprocess.run(cmd, stdout=subprocess.PIPE, stderr=subprocess.STDOUT, text=True, timeout=timeout)
             parts.append(part)
+            if p.returncode == 3:
+                # the driver recorded a stalled history (its threads are stuck) and left: continue after it
+                try:
+                    idx = int(open(journal).read().strip())
+                except Exception:
+                    raise ToolError("driver stalled without journal")
+                start = idx + 1
+                continue
             if p.returncode != 0:
                 # the driver itself died (abort, stack overflow, OOM kill): the
                 # journalled history is the culprit
@@ -170,7 +178,9 @@ class Failure:
         return f"{self.tag}.{self.rule}@h{self.hi}/op{self.oi}"
 
 
-def validate_trace(spec, trace, dictname, md, timeout=1800, env_more=None):
+def validate_trace(spec, trace, dictname, md, timeout=1800, env_more=None, keep=None):
+    """keep: optional list; receives every non-boilerplate TLC output line (for validators that also
+    print derived data such as PROGRAM lines)."""
     env = {"TRACE": trace, "DICT": os.path.join(DICTDIR, f"{dictname}.tlc.json"),
            "VALUES": os.path.join(DICTDIR, "values.json")}
     if env_more:
@@ -178,6 +188,8 @@ def validate_trace(spec, trace, dictname, md, timeout=1800, env_more=None):
     rc, lines = run_tlc(f"{spec}.tla", f"{spec}.cfg", env, md, workers=1, timeout=timeout)
     fails, notes, expected = [], [], []
     seen = set()
+    if keep is not None:
+        keep.extend(lines)
     for i, ln in enumerate(lines):
         m = FAIL_RE.match(ln)
         if m:
@@ -207,11 +219,12 @@ def shard(items, k):
 
 
 def script_hash(hist):
-    return hashlib.sha1(json.dumps(hist.get("ops", []), sort_keys=True).encode()).hexdigest()
+    key = hist.get("ops") if "ops" in hist else {k: v for k, v in hist.items() if k != "id"}
+    return hashlib.sha1(json.dumps(key, sort_keys=True).encode()).hexdigest()
 
 
 def drive_and_validate(name, dictname, histories, spec="Trace_File", driver="drive", nshards=None,
-                       drive_timeout=180, tlc_timeout=1800, extra_script=None):
+                       drive_timeout=180, tlc_timeout=1800, extra_script=None, keep=None):
     """Runs `histories` on the real library and validates every trace with TLC.
     Returns dict with failures (global history indices), hangs, counts."""
     wd = workdir(name)
@@ -236,7 +249,7 @@ def drive_and_validate(name, dictname, histories, spec="Trace_File", driver="dri
         nev = sum(1 for _ in open(tp))
         if nev == 0:
             return si, [], hung, 0, 0
-        fails, notes, distinct = validate_trace(spec, tp, dictname, os.path.join(wd, f"md{si}"), timeout=tlc_timeout)
+        fails, notes, distinct = validate_trace(spec, tp, dictname, os.path.join(wd, f"md{si}"), timeout=tlc_timeout, keep=keep)
         return si, fails, hung, nev, distinct
 
     results = {"failures": [], "hangs": [], "events": 0, "tlc_states": 0, "histories": len(histories), "workdir": wd,
